@@ -85,7 +85,7 @@ func vWriteEntry(dir string, h *vHash, rsum, dsum, body []byte) (string, []byte)
 
 //verif:harness prop=C13 quick=8 thorough=8 merge=none
 //verif:bounds model hash with 2-byte digests (header = 6 bytes; the code is parametric in Size()); body of 0..3 (quick) / 0..6 (thorough) symbolic bytes; one fault per shard: none | flip any file byte by any non-zero mask | truncate to any shorter length | append 1..2 symbolic bytes | open with other root/data digests | another entry's content under this name | crash after placeholder header + any body prefix | crash after full body + any prefix of the final header
-//verif:assume in-memory file system (Read returns all requested bytes or EOF), identity flate, digest = uninterpreted function with no collision between the inputs compared; root digest of a real input is not all-zero
+//verif:assume in-memory file system (Read returns all requested bytes or EOF), flate = self-delimiting framing that is buffered until Close (not real DEFLATE), digest = uninterpreted function with no collision between the inputs compared; root digest of a real input is not all-zero
 func VH_C13_cache_faults() {
 	fault := vShard(8)
 	dir := vTempDir()
@@ -96,7 +96,12 @@ func VH_C13_cache_faults() {
 	body := vBytes("body", n)
 	name, fin := vWriteEntry(dir, h, rsum, dsum, body)
 	if vIsModel() {
-		vAssert("finished-size", len(fin) == 6+n) // identity flate: header + body
+		// model flate framing: header + one chunk [hi lo body] (when the body is not empty) + terminator [0 0]
+		want := 6 + 2
+		if n > 0 {
+			want += 2 + n
+		}
+		vAssert("finished-size", len(fin) == want)
 	}
 	cur := append([]byte{}, fin...)
 	orsum, odsum := rsum, dsum
